@@ -13,6 +13,13 @@ import (
 
 func init() { vh.Register("C02", runC02) }
 
+// c02Extra: additional case families of this property (other files of the c02 group append
+// to it in their init); each gets the same Ctx and reports into the same result.
+var c02Extra []vh.PropFunc
+
+// c02ReplayExtra: replay dispatch for the extra families, by the "kind" field of the case.
+var c02ReplayExtra = map[string]func(ctx *vh.Ctx, raw json.RawMessage) error{}
+
 type c02Case struct {
 	G     *gcase.Graph `json:"g"`
 	Input string       `json:"input"`
@@ -81,6 +88,14 @@ func c02One(ctx *vh.Ctx, c *c02Case) error {
 func runC02(ctx *vh.Ctx) error {
 	ctx.Res.Rule = "random acyclic all-predecessor (DAG) graphs: 1-8 nodes, forward edges, 0-3 single/multi branches (converging, nested skips), fan-in by map merge, pass-through/failing nodes, nested graphs; non-trivial = >=2 steps and (fan-in | branch | nested); distinct by canonical case"
 	if ctx.Replay != nil {
+		var probe struct {
+			Kind string `json:"kind"`
+		}
+		if json.Unmarshal(ctx.Replay, &probe) == nil && probe.Kind != "" {
+			if f, ok := c02ReplayExtra[probe.Kind]; ok {
+				return f(ctx, ctx.Replay)
+			}
+		}
 		var c c02Case
 		if err := json.Unmarshal(ctx.Replay, &c); err != nil {
 			return err
@@ -95,6 +110,11 @@ func runC02(ctx *vh.Ctx) error {
 		}
 		c := &c02Case{G: gcase.Gen(ctx.Rng, o), Input: fmt.Sprintf("x%d", ctx.Rng.Intn(5))}
 		if err := c02One(ctx, c); err != nil {
+			return err
+		}
+	}
+	for _, f := range c02Extra {
+		if err := f(ctx); err != nil {
 			return err
 		}
 	}
